@@ -247,6 +247,56 @@ def r6_const_errors_keep_their_kind(ctx, rule="C14.R6"):
     ctx.require(rule, 3)
 
 
+def r7_only_the_folder_computes_on_literals(ctx, rule="C14.R7"):
+    """`a CONST has the value and type its expression would have at run time`, and a constant is inlined as a
+    literal where it is used.  The parser rewrites `-32768` (a minus sign in front of digits) into one wider
+    literal, because there the digits alone would not fit; that is arithmetic on the spelling of a program.
+    Applied after constants were inlined it computes on *values*: `-LOWEST` with CONST LOWEST = -32768 becomes
+    the LONG 32768 where the VM and the constant folder both raise Overflow.  The functions of the parser that
+    negate the payload of a literal (and the parser functions built on them) are called from the parser crate
+    only; the one place of the checker that computes values is the constant folder, which is compared with the
+    VM cell by cell (R1)."""
+    prog = ctx.prog
+    family = set()
+    for f in prog.fns.values():
+        if f.crate != "rusty_parser" or f.body is None:
+            continue
+        if any(st["k"] == "assign" and st["r"].get("k") == "un" and st["r"].get("op") == "Neg"
+               for blk in f.body.blocks if not blk.get("c") for st in blk["s"]):
+            family.add(f.id)
+    callers = prog.callers()
+    work = list(family)
+    while work:
+        x = work.pop()
+        for c in callers.get(x, ()):
+            g = prog.fns.get(c)
+            if g is not None and g.crate == "rusty_parser" and c not in family and "::expr::" in c:
+                family.add(c)
+                work.append(c)
+    inside = 0
+    outside = []
+    for f in prog.fns.values():
+        if f.body is None:
+            continue
+        for _b, t in f.body.calls():
+            c = t.get("res") or mir.callee_of(t)
+            if c in family:
+                if f.crate == "rusty_parser":
+                    inside += 1
+                else:
+                    outside.append("%s (%s:%s)" % (f.path.split("::", 1)[1], f.file, t.get("ln")))
+    if len(family) < 2 or inside < 2:
+        raise CheckError("%s: the literal arithmetic of the parser was not found (%d functions, %d calls inside the parser)"
+                         % (rule, len(family), inside))
+    ctx.decide(not outside, rule, rule + ":literal-arithmetic-stays-in-the-parser", "rusty_parser/src/expr/types.rs",
+               "%d parser functions compute on literals; called %d times, from the parser only" % (len(family), inside),
+               "the parser's arithmetic on literals is applied outside the parser: %s - after constants were inlined it computes "
+               "a value the VM and the constant folder refuse (`-LOWEST` with CONST LOWEST = -32767 - 1 is 32768 instead of "
+               "Overflow)" % ", ".join(outside[:4]))
+    ctx.analysed_units(rule, family=len(family), calls_inside_parser=inside)
+    ctx.require(rule, 1)
+
+
 def run(ctx):
     common.install(ctx)
     T = ot.OpTables(ctx.prog)
@@ -257,3 +307,4 @@ def run(ctx):
     c13.r5_local_before_global(ctx, "C14.R4")
     r5_stored_constant_is_the_converted_value(ctx)
     r6_const_errors_keep_their_kind(ctx)
+    r7_only_the_folder_computes_on_literals(ctx)
